@@ -69,6 +69,11 @@ F = TypeVar("F", bound=Callable)
 def _mask(
     val: Union[pd.Series, pd.Index], null_mask: List[bool]
 ) -> Union[pd.Series, pd.Index]:
+    if isinstance(val.dtype, np.dtype) and val.dtype.kind in "biu":
+        # numpy boolean and integer data cannot hold nulls: masking would
+        # silently turn the data into float/object values that no longer
+        # conform to the schema's data type
+        return val
     if pd.api.types.is_timedelta64_dtype(val):  # type: ignore [arg-type]
         return val.mask(null_mask, pd.NaT)  # type: ignore [union-attr,arg-type]
     elif val.dtype == pd.StringDtype():  # type: ignore [call-arg]
